@@ -25,11 +25,13 @@ import (
 	"encoding/json"
 	"flag"
 	"fmt"
+	"hash/fnv"
 	"os"
 	"os/exec"
 	"path/filepath"
 	"runtime"
 	"runtime/debug"
+	"runtime/pprof"
 	"sort"
 	"strconv"
 	"strings"
@@ -100,8 +102,17 @@ func famOn(f string) bool {
 	return false
 }
 
+// buildShards lists the work items in a fixed pseudo-random order (a hash of the shard's own
+// coordinates): shard cost varies a lot (a refused request line costs 1 us, a served one 40 us)
+// and the static i%n assignment of SpawnWorkers would otherwise line costs up with workers.
 func buildShards(quick bool) []shard {
 	all := buildAllShards(quick)
+	key := func(s shard) uint64 {
+		h := fnv.New64a()
+		fmt.Fprintf(h, "%s/%d/%d/%d", s.Fam, s.Cfg, s.A, s.B)
+		return h.Sum64()
+	}
+	sort.SliceStable(all, func(i, j int) bool { return key(all[i]) < key(all[j]) })
 	if *flagFamilies == "" {
 		return all
 	}
@@ -207,12 +218,16 @@ type checkpoint struct {
 	MaxDesc  string        `json:"max_desc"`
 }
 
+// processCPU returns the USER-mode CPU seconds of this process. System time is left out on
+// purpose: on a machine under memory or I/O pressure the kernel can burn seconds of system time
+// on behalf of a process (direct reclaim, page-cache writeback faults) while no case makes
+// progress - that is machine noise, not a loop in the server. A server that loops burns user time.
 func processCPU() float64 {
 	var ru syscall.Rusage
 	if syscall.Getrusage(syscall.RUSAGE_SELF, &ru) != nil {
 		return 0
 	}
-	return float64(ru.Utime.Sec) + float64(ru.Utime.Usec)/1e6 + float64(ru.Stime.Sec) + float64(ru.Stime.Usec)/1e6
+	return float64(ru.Utime.Sec) + float64(ru.Utime.Usec)/1e6
 }
 
 // watchdog ends the process (exit 7) when the case in flight burns more than the CPU cap, or
@@ -240,6 +255,7 @@ func (w *worker) watchdog() {
 				w.prog[16] = reason
 			}
 			fmt.Fprintf(os.Stderr, "C07-WATCHDOG reason=%d case=%d cpu=%.1fs\n", reason, cur, cpu-cpuAt)
+			_ = pprof.Lookup("goroutine").WriteTo(os.Stderr, 2) // where is it stuck?
 			os.Exit(7)
 		}
 	}
@@ -593,7 +609,8 @@ func recoverWorker(r *core.Run, idx, n int) {
 	env := []string{"GOMAXPROCS=1"}
 	var skips []string
 	fromShard, caseBase := 0, int64(0)
-	for round := 0; round < maxDeathsPerWorker; round++ {
+	transient := 0
+	for round := 0; round < maxDeathsPerWorker+1; round++ {
 		culprit, _, reason, ok := readProgress(out + ".prog")
 		if !ok {
 			core.Fatal("worker %d died without a progress record", idx)
@@ -610,7 +627,22 @@ func recoverWorker(r *core.Run, idx, n int) {
 		_ = os.Remove(out + ".confirm.prog")
 		_ = os.Remove(out + ".confirm.ckpt")
 		if conf.err == nil {
-			core.Fatal("harness nondeterminism: worker %d died in case %d (reason %d) but the case passes when re-run alone", idx, culprit, reason)
+			// Not reproduced: never a violation. Treat it once as machine noise (note in the
+			// evidence, the case is NOT skipped when the worker is resumed); twice = exit 2.
+			transient++
+			if transient > 1 {
+				core.Fatal("harness nondeterminism: worker %d died twice (last: case %d, reason %d) in cases that pass when re-run alone", idx, culprit, reason)
+			}
+			r.Note(fmt.Sprintf("worker %d died in case %d (watchdog reason %d) but the case passes when re-run alone in a fresh process: treated as machine noise, worker resumed with the case included", idx, culprit, reason))
+			r.Add("worker_deaths_not_reproduced", 1)
+			res := runChild(r, out, 0, env, append(append([]string{}, common...), "-skip", strings.Join(skips, ","))...)
+			if res.err == nil && res.partial != nil {
+				r.Merge(res.partial)
+				_ = os.Remove(out + ".prog")
+				_ = os.Remove(out + ".ckpt")
+				return
+			}
+			continue
 		}
 		kind := classifyDeath(conf, 0)
 		if kind == "harness-error" {
@@ -643,6 +675,7 @@ func runBalloonParent(r *core.Run) {
 	out := filepath.Join(core.VerifDir, ".build", "parts", "C07", "balloon.json")
 	_ = os.MkdirAll(filepath.Dir(out), 0o755)
 	after := int64(0)
+	notRepro := 0
 	_ = os.Remove(out + ".ckpt")
 	for round := 0; round < 40; round++ {
 		args := []string{"-balloon", "-worker", "0", "-nworkers", "1", "-after", strconv.FormatInt(after, 10)}
@@ -670,7 +703,18 @@ func runBalloonParent(r *core.Run) {
 		conf := runChild(r, out+".confirm", 4000000, []string{"GOMAXPROCS=1"}, "-balloon", "-worker", "0", "-nworkers", "1", "-only", strconv.FormatInt(n, 10))
 		_ = os.Remove(out + ".confirm.prog")
 		if conf.err == nil {
-			core.Fatal("harness nondeterminism: balloon case %d killed the child but passes when re-run alone", n)
+			// not reproduced alone: never a violation; the verdict of the solitary run counts
+			notRepro++
+			if notRepro > 2 {
+				core.Fatal("harness nondeterminism: %d balloon inputs killed the child but pass when re-run alone", notRepro)
+			}
+			r.Note(fmt.Sprintf("balloon case %d killed the child (%s) but passes when re-run alone in a fresh process: treated as machine noise", n, kind))
+			r.Add("worker_deaths_not_reproduced", 1)
+			if conf.partial != nil {
+				r.Merge(conf.partial)
+			}
+			after = n
+			continue
 		}
 		kind = classifyDeath(conf, 0)
 		r.Add("evaluations", 1)
